@@ -274,6 +274,7 @@ def run_case(item):
     ren = beh["ren"]
     pre = ps.Program(beh["pre"])
     post = ps.Program(beh["post"], order_as={ren["new"]: ren["old"]})
+    post.sibname = pre.libname       # a module rename does not move the importer's sibling
     r = ps.render(pre)
     rp = ps.render(post)
     try:
